@@ -146,12 +146,20 @@ class AnalysisSystem:
             if me.fail_at['i'] is not None:
                 me.fail_at['n'] += 1
                 if me.fail_at['n'] - 1 == me.fail_at['i']:
+                    me._before = me._public(me._current)          # what the analysis shows just before the step that fails
                     raise ValueError('injected preprocess failure')
             return traces
         self.pp = maybe_fail
 
     def describe(self):
         return {'analysis': self.fam, 'kind': self.kind, 'precision': self.prec, 'convergence_step': self.step, 'N': self.N}
+
+    def _public(self, obj):
+        """Everything a user can read off the analysis: counter, results, scores, convergence traces (as bytes)."""
+        np = self.np
+        def b(x):
+            return None if x is None else (np.asarray(x).shape, np.asarray(x).tobytes())
+        return (int(obj.processed_traces), b(getattr(obj, 'results', None)), b(getattr(obj, 'scores', None)), b(getattr(obj, 'convergence_traces', None)))
 
     def fresh(self):
         self._rows = 0
@@ -197,6 +205,8 @@ class AnalysisSystem:
         from mc import env
         clk = env.install_clock(P)
         clk.dur = float(max(getattr(obj, '_timings', [-2, -1]))) + 1.0; clk._pending = False
+        self._current = obj
+        self._before = self._public(obj) if ev[0] == 'R' else None
         try:
             if ev[0] == 'P':
                 obj.process(self._Batch(self.pool['samples'][lo:lo + ev[1]], {'v': self.pool['v'][lo:lo + ev[1]]}))
@@ -233,6 +243,12 @@ class AnalysisSystem:
             obs['exc'] = type(e).__name__; obs['exc_msg'] = str(e)[:160]
             if ev[0] == 'RUN':
                 self._rows += ev[2]                           # the batches before the failing one were accepted steps
+            if ev[0] in ('R', 'RUN') and self._before is not None:
+                now = self._public(obj)
+                names = ('processed_traces', 'results', 'scores', 'convergence_traces')
+                obs['changed_by_refused_step'] = [n for n, a, b in zip(names, self._before, now) if a != b]
+                if 'convergence_traces' in obs['changed_by_refused_step'] and self._before[3] is not None and now[3] is not None:
+                    obs['columns'] = (self._before[3][0][-1], now[3][0][-1])
         obs['pt'] = int(obj.processed_traces)
         return obs
 
@@ -260,6 +276,8 @@ class AnalysisSystem:
                 self.accepted_kinds.add(ev[1])
                 return (self.N, 9, nr + 1, rk), v                # not a rejection: end of branch
             self.raised_kinds.add(ev[1])
+            if obs.get('changed_by_refused_step'):
+                v.append((fpb + 'refused=%s/changed-%s' % (ev[1], '+'.join(obs['changed_by_refused_step'])), '%s: a refused %s process() changed %s (%d accepted rows before it)' % (cfg, ev[1], obs['changed_by_refused_step'], i)))
             if obs['pt'] != i:
                 v.append((fpb + 'refused=%s/counter' % ev[1], '%s: processed_traces=%d right after a refused %s process() with %d accepted rows' % (cfg, obs['pt'], ev[1], i)))
             return (i, 0, nr + 1, rk + (ev[1],)), v
@@ -269,6 +287,9 @@ class AnalysisSystem:
                 v.append((fpb + 'failing-run-returned', '%s: run() returned although the preprocess raised on batch %d' % (cfg, f)))
                 return (self.N, 9, nr + 1, rk), v
             self.raised_kinds.add('run')
+            if obs.get('changed_by_refused_step'):
+                v.append((fpb + 'failed-run/changed-%s' % '+'.join(obs['changed_by_refused_step']), '%s: the step of run() that failed (batch %d, %d rows accepted before the run) changed %s%s'
+                          % (cfg, f, i, obs['changed_by_refused_step'], '' if 'columns' not in obs else ': convergence columns %d -> %d' % obs['columns'])))
             if obs['pt'] != i + f:
                 v.append((fpb + 'failed-run/counter', '%s: processed_traces=%d after a run() that failed on its batch %d with %d rows accepted before' % (cfg, obs['pt'], f, i)))
             return (i + f, 0, nr + 1, rk + ('run@%d' % f,)), v
